@@ -267,6 +267,69 @@ def _analyse(root, ftype, name, tier):
     return res
 
 
+PROBE_ULP = 6.0
+
+
+def _probe(root, ftype, name, tier):
+    """R2.4: boundary-value analysis of the region structure (see rules/C01_probe.py): the flips of every select guard along the
+    float line (hypot: along rays y = +-2**k x and lines through +-1) are located by bisection on the IR evaluated at single
+    points; next to every flip, in the middle of every piece and on a grid of one point per half binade the exactly evaluated
+    result must be within PROBE_ULP of the long-double reference."""
+    from rules.C01_probe import LineProbe, grid_ordinals
+    from rules.C01 import _simp
+    from ir.normal import subst, T, const
+
+    fa = load_package(root)
+    fmt = Fmt(ftype)
+    res = dict(lines=0, points=0, flips=0, worst=0.0, worst_at="", failures=[], error=None)
+    try:
+        args, fn, dlo, dhi = FUNCS[name]
+        term = _term(fa, name, args, ftype)
+        if len(args) == 1:
+            specs = [("the float line", ("axis", "y", 0.0), term, "x", (lambda z: fn(np.real(z))))]
+        else:
+            ks = (0, 1, 2, 4, 8, 16, 30) if tier == "quick" else tuple(range(0, 13)) + tuple(range(16, 65, 4))
+            specs = []
+            hyp = lambda z: np.hypot(np.real(z), np.imag(z))
+            for k in ks:
+                for kk in sorted({k, -k}):
+                    for sg in (1.0, -1.0):
+                        c = sg * 2.0 ** kk
+                        rep = sym("x") if c == 1.0 else T("negative", sym("x")) if c == -1.0 else T("multiply", const(("num", float(c).hex())), sym("x"))
+                        m1, m2 = {}, {}
+                        specs.append((f"ray y={c:g}*x", ("ray", c), _simp(subst(term, {"y": rep}, m1), m2), "x", hyp))
+            for v in (1.0, float(fmt.smallest), float(fmt.largest) / 2):
+                specs.append((f"line y={v:g}", ("axis", "y", v), term, "x", hyp))
+        from rules.C01_probe import dense_grid
+
+        grid = grid_ordinals(fmt) if len(args) == 2 else dense_grid(fmt, 16 if tier == "quick" else 256)
+        oi = fmt.ord_inf
+        for label, spec, t_, var, oracle in specs:
+            lp = LineProbe(name, oracle, spec, t_, None, var, fmt)
+            lo, hi = lp.flips(grid)
+            cuts = np.unique(np.concatenate([[grid[0]], lo, [grid[-1]]]))
+            mids = cuts[:-1] + (cuts[1:] - cuts[:-1]) // 2
+            near = np.unique(np.concatenate([lo - 1, lo, hi, hi + 1, mids, grid]))
+            near = near[(near >= -oi - 1) & (near <= oi)]
+            err, z, vals = lp.errors(near)
+            res["lines"] += 1
+            res["points"] += int((~np.isnan(err)).sum())
+            res["flips"] += len(lo)
+            okm = err <= PROBE_ULP
+            if okm.any() and float(err[okm].max()) > res["worst"]:
+                i = int(np.nonzero(okm & (err == err[okm].max()))[0][0])
+                res["worst"], res["worst_at"] = float(err[i]), f"{var} = {float(fmt.from_ord(near[i]))!r} on {label}"
+            bad = np.nonzero(~okm & ~np.isnan(err))[0]
+            if len(bad):
+                i = int(bad[0])
+                res["failures"].append((label, f"{len(bad)} probe point(s) on {label}, e.g. {var} = {float(fmt.from_ord(near[i])).hex()} ({float(fmt.from_ord(near[i]))!r})"
+                                        + (f", y = {float(np.imag(z[i]))!r}" if len(args) == 2 else "")
+                                        + f": computed {float(vals[0][i])!r}, error {err[i]:.3g} ULP against the long-double reference"))
+    except (Unsupported, Unmodelled) as e:
+        res["error"] = f"{name}[{ftype}] boundary probes: {e}"
+    return res
+
+
 # relative bound per tier: (narrow functions, functions whose partition is two-dimensional or as fine as the lattice)
 DELTA = {"quick": (2.0 ** -8, 2.0 ** -3), "thorough": (2.0 ** -11, 2.0 ** -4)}
 WIDE = {"hypot"}
@@ -279,6 +342,7 @@ def run(repo, tier):
     r = Report("C02", tier, repo, level="other", design_ref="DESIGN.md §3/C02")
     r.rule("R2.1", "each real algorithm returns the exact limit at -inf, -0, +0, +inf and at the ends of its domain, and NaN exactly at the special points where the function is undefined", floor=40)
     r.rule("R2.3", f"forward error analysis: on every box of a partition of all inputs the rounding-error bound of the expression DAG is at most {ERR_BOUND_U:.0f}u (u = 2**-p), or, at single points where the bound is not provable, the exactly evaluated result is within {POINT_ULP:.0f} ULP of the true value", floor=14)
+    r.rule("R2.4", f"boundary-value analysis of the region structure: the flips of every select guard along the float line (hypot: along rays and lines) are located by bisection on the IR evaluated at single points; next to every flip, in the middle of every piece and on one point per half binade the exactly evaluated result is within {PROBE_ULP:.0f} ULP of the long-double reference", floor=14)
     r.rule("R2.2", "for every float of the format (adaptive partition of the whole line/plane, interval abstract interpretation): NaN exactly outside the domain, no spurious NaN/inf, correct sign and relative error below the coarse bound", floor=14)
     if np.finfo(LD).maxexp <= 1024:
         raise AnalysisError("numpy.longdouble is not an extended format on this machine; the reference ranges for float64 would overflow")
@@ -290,9 +354,12 @@ def run(repo, tier):
     jobs = int(os.environ.get("VERIF_JOBS", "0") or 0) or min(len(tasks), os.cpu_count() or 1)
     if jobs > 1:
         with mp.get_context("fork").Pool(jobs) as pool:
+            presults_async = pool.starmap_async(_probe, tasks, chunksize=1)
             results = pool.starmap(_analyse, tasks, chunksize=1)
+            presults = presults_async.get()
     else:
         results = [_analyse(*t) for t in tasks]
+        presults = [_probe(*t) for t in tasks]
     total = dict(boxes=0, proved=0, points=0, levels=0)
     pending_errors = []
     for (root, ftype, name, _), res in zip(tasks, results):
@@ -320,6 +387,16 @@ def run(repo, tier):
                 r.ob("R2.3", ekey + f" at {lo_}", False, info, where)
         elif res.get("err_ok"):
             r.ob("R2.3", ekey, True, res["err_ok"], where)
+    for (root, ftype, name, _), res in zip(tasks, presults):
+        where = f"functional_algorithms/{REL}::{name}"
+        if res["error"] and not res["failures"]:
+            pending_errors.append(res["error"])
+            continue
+        for label, text in res["failures"][:4]:
+            r.ob("R2.4", f"{name}[{ftype}] {label}", False, text, where)
+        if not res["failures"]:
+            r.ob("R2.4", f"{name}[{ftype}] region boundaries", res["points"] > 0,
+                 f"{res['lines']} line(s), {res['flips']} guard flips located, {res['points']} probe points within {PROBE_ULP:.0f} ULP (worst {res['worst']:.2f} at {res['worst_at']})", where)
     if pending_errors and not any(not o["ok"] for o in r.obligations):
         raise AnalysisError(pending_errors[0])
     r.info("R2.2", f"boxes evaluated {total['boxes']}, proved {total['proved']} (of which single points {total['points']}), deepest refinement {total['levels']} levels; library-function slack {LIBM_SLACK} ulp; {jobs} worker process(es)")
